@@ -212,6 +212,10 @@ func vGenBatch(cfg gCfg) ([]index.Document, *sSpec) {
 						if !cfg.noFx {
 							freq += uint64(vChoice(cfg.prefix+"fx"+tt, 2))
 						}
+						if cfg.freqZero && vBool(cfg.prefix+"skipfn"+tt) {
+							// frequencies / norms switched off for the field, term vectors kept: freq 0 with locations
+							freq = 0
+						}
 					} else if gf.fixFreq {
 						freq = 1
 					} else {
